@@ -60,20 +60,25 @@ AddrAt(shape, n, typ, ip) ==
     [] shape = "notauth"  -> Fail(9)
 
 VARIABLES inp, hs, as, a6s, ts,                 \* the case
+          ztab,                                 \* an explicit DNS universe (Seq of [q, r]) - used by trace validation of random zones; <<>> = the shapes
           pc, want, seen, https, addl, tq, address, queries, result
 
-case == <<inp, hs, as, a6s, ts>>
+case == <<inp, hs, as, a6s, ts, ztab>>
 vars == <<case, pc, want, seen, https, addl, tq, address, queries, result>>
 
 Svcb == SvcbName(inp)
 \* the DNS universe of this case
-Zone(q) ==
+ShapeZone(q) ==
   IF q.typ = "HTTPS" THEN HttpsAt(hs, q.name, Svcb)
   ELSE IF q.name = N("t") THEN AddrAt(ts, q.name, q.typ, IF q.typ = "A" THEN "t4" ELSE "t6")
   ELSE IF q.name = N("evil") THEN OK(<< RR(q.name, q.typ, "evil9") >>)
   \* addresses differ by owner: the origin's are o4/o6, those of any other name (alias targets) x4/x6
   ELSE IF q.typ = "A" THEN AddrAt(as, q.name, "A", IF q.name = N(Origin) THEN "o4" ELSE "x4")
   ELSE AddrAt(a6s, q.name, "AAAA", IF q.name = N(Origin) THEN "o6" ELSE "x6")
+
+Zone(q) == IF ztab = <<>> THEN ShapeZone(q)
+           ELSE LET hits == {i \in DOMAIN ztab : ztab[i].q = q} IN
+                IF hits = {} THEN OK(<<>>) ELSE ztab[CHOOSE i \in hits : \A j \in hits : i <= j].r
 
 \* resolveOneNoCache's filter: records owned by the question name or reached through the in-answer CNAME chain
 RECURSIVE Filter(_, _, _, _)
@@ -91,7 +96,7 @@ ErrOf(rc) == CASE rc = 1 -> "format_error" [] rc = 2 -> "server_failure" [] rc =
                [] rc = 5 -> "refused" [] OTHER -> "other"
 
 Init ==
-  /\ inp \in Inputs /\ hs \in HShapes /\ as \in AShapes /\ a6s \in A6Shapes /\ ts \in TShapes
+  /\ inp \in Inputs /\ hs \in HShapes /\ as \in AShapes /\ a6s \in A6Shapes /\ ts \in TShapes /\ ztab = <<>>
   /\ pc = "parse" /\ want = N(Origin) /\ seen = {} /\ https = <<>> /\ addl = <<>> /\ tq = <<>> /\ address = <<>>
   /\ queries = <<>> /\ result = [kind |-> "none"]
 
